@@ -45,6 +45,7 @@ type Contract struct {
 	Loops    map[int]*LoopSpec
 	Modifies []string // heap names the function may modify; nil = unspecified (checked: nothing), "all"
 	ModSet   bool
+	Iters    map[string]*LoopSpec
 	Panics   bool // explicit panics allowed
 	PanicPost []*Clause
 	Pure     bool
@@ -210,7 +211,7 @@ func matchClose(s string, i int) int {
 	return -1
 }
 
-var tagRe = regexp.MustCompile(`^(\w+)\[(C\d+)\]$`)
+var tagRe = regexp.MustCompile(`^(\w+)\[([A-Z]\d+)\]$`)
 
 // parseContracts reads the //@ blocks of a contract file.
 func parseContracts(file string, pkgPath string) ([]*Contract, error) {
@@ -289,6 +290,13 @@ func parseContracts(file string, pkgPath string) ([]*Contract, error) {
 				cur.Modifies = append(cur.Modifies, strings.Fields(rest)...)
 				cur.ModSet = true
 			}
+		case "iter":
+			// invariant of the implicit loop of an iterator method (x.M(callback)), keyed by method name
+			loop = &LoopSpec{Ordinal: -1}
+			if cur.Iters == nil {
+				cur.Iters = map[string]*LoopSpec{}
+			}
+			cur.Iters[rest] = loop
 		case "loop":
 			n, err := strconv.Atoi(rest)
 			if err != nil {
@@ -564,6 +572,20 @@ func (pk *Pkg) injectAndRecheck(w *World) error {
 				return err
 			}
 			injPost = append(injPost, s)
+		}
+		var iterNames []string
+		for n := range c.Iters {
+			iterNames = append(iterNames, n)
+		}
+		sort.Strings(iterNames)
+		for _, n := range iterNames {
+			for _, cl := range c.Iters[n].Invariants {
+				s, err := mkStmt(cl)
+				if err != nil {
+					return err
+				}
+				injPost = append(injPost, s)
+			}
 		}
 		blk := &ast.BlockStmt{List: inj}
 		pk.Injected[blk] = true
